@@ -475,6 +475,36 @@ macro_rules! full_set {
                         vec![obytes(&sig), Out::Ints(lens), obytes(&log.concat())]
                     }
                     // draws made by seeded key generation and verification (must be none)
+                    // freshness across OS threads: `threads` barrier-started fresh threads each make `per` unseeded key
+                    // generations and `per` randomized/hedged signatures of one message under one key; returns the number of
+                    // outputs and of DISTINCT outputs (a per-thread generator cloned from a shared seed repeats across threads)
+                    "rng_threads" => {
+                        let threads = int(&a[0]) as usize; let per = int(&a[1]) as usize;
+                        let sk = std::sync::Arc::new(bytes(&a[2]).to_vec());
+                        let barrier = std::sync::Arc::new(std::sync::Barrier::new(threads));
+                        let mut hs = Vec::new();
+                        for _ in 0..threads {
+                            let (sk, barrier) = (sk.clone(), barrier.clone());
+                            hs.push(std::thread::spawn(move || {
+                                barrier.wait();
+                                let mut ks = Vec::new(); let mut ss = Vec::new();
+                                for _ in 0..per {
+                                    let mut pk = vec![0u8; par::PUBLICKEYBYTES]; let mut s2 = vec![0u8; par::SECRETKEYBYTES];
+                                    sg_::keypair(&mut pk, &mut s2, None);
+                                    ks.push(crate::history::fnv(&pk));
+                                    let mut sig = vec![0u8; par::SIGNBYTES];
+                                    sg_::signature(&mut sig, b"one message", &sk, true);
+                                    ss.push(crate::history::fnv(&sig));
+                                }
+                                (ks, ss)
+                            }));
+                        }
+                        let mut ks = Vec::new(); let mut ss = Vec::new();
+                        for h in hs { let (k, s) = h.join().unwrap(); ks.extend(k); ss.extend(s); }
+                        let (nk, ns) = (ks.len(), ss.len());
+                        ks.sort(); ks.dedup(); ss.sort(); ss.dedup();
+                        vec![oint(nk as i64), oint(ks.len() as i64), oint(ns as i64), oint(ss.len() as i64)]
+                    }
                     "draws_seeded" => {
                         let mut pk = vec![0u8; par::PUBLICKEYBYTES]; let mut sk = vec![0u8; par::SECRETKEYBYTES];
                         cd::verif_hooks::rng_script(None);
@@ -515,6 +545,14 @@ macro_rules! containers {
             "kp_generate" => {
                 let kp = api::Keypair::generate(Some(bytes(&$a[0])));
                 Some(vec![obytes(&kp.secret.to_bytes()), obytes(&kp.public.to_bytes()), obytes(&kp.to_bytes())])
+            }
+            // seeded generation through the API wrapper with the request log: (secret, public, number of RNG requests)
+            "kp_generate_log" => {
+                cd::verif_hooks::rng_script(None);
+                cd::verif_hooks::rng_take_log();
+                let kp = api::Keypair::generate(Some(bytes(&$a[0])));
+                let n = cd::verif_hooks::rng_take_log().len();
+                Some(vec![obytes(&kp.secret.to_bytes()), obytes(&kp.public.to_bytes()), oint(n as i64)])
             }
             "kp_generate_rand" => {
                 let tape = bytes(&$a[0]).to_vec();
